@@ -467,3 +467,136 @@ func ruleD6c(c *Ctx) {
 			name+" has a path that returns without "+map[bool]string{true: "making the set ordered", false: "sorting the list"}[skipEnsure]+": sorting a set with fewer than two members leaves it unordered, so later additions iterate in map order and Equal against the corresponding ordered set is false")
 	}
 }
+
+// ---------------------------------------------------------------- H5 / H6  (hdrhist)
+
+func ruleH56(c *Ctx) {
+	R := c.R
+	p := c.P
+	R.Rule("H5", "in hdrhist a left shift whose result is widened to 64 bits is performed on a 64-bit operand (int64(x) << s, never int64(x << s)): bucket values reach 2^62, a 32-bit shift wraps", 2)
+	R.Rule("H6", "Histogram.Export hands out a copy of the counts: the slice stored in Snapshot.Counts is built on a fresh backing array (append onto nil / make), never on h.counts itself", 1)
+	shifts := 0
+	for _, f := range p.FuncsIn("dt/hdrhist") {
+		info := f.Info()
+		walkNoLit(f.Body, func(x ast.Node) bool {
+			be, ok := x.(*ast.BinaryExpr)
+			if !ok || be.Op != token.SHL {
+				return true
+			}
+			tv, ok := info.Types[be]
+			if !ok {
+				return true
+			}
+			b, ok := tv.Type.Underlying().(*types.Basic)
+			if !ok {
+				return true
+			}
+			shifts++
+			at := fmt.Sprintf("%s/shl(%s)", f.Name, exprStr(be))
+			pos := p.Position(be.Pos())
+			narrow := b.Kind() == types.Int32 || b.Kind() == types.Uint32 || b.Kind() == types.Int16 || b.Kind() == types.Uint16 || b.Kind() == types.Int8 || b.Kind() == types.Uint8
+			// is the shift the operand of a widening conversion?
+			widened := false
+			par := p.Parent(be)
+			for {
+				if pe, ok := par.(*ast.ParenExpr); ok {
+					par = p.Parent(pe)
+					continue
+				}
+				break
+			}
+			if call, ok := par.(*ast.CallExpr); ok && len(call.Args) == 1 {
+				if ctv, ok := info.Types[call.Fun]; ok && ctv.IsType() {
+					if cb, ok := ctv.Type.Underlying().(*types.Basic); ok && (cb.Kind() == types.Int64 || cb.Kind() == types.Uint64 || cb.Kind() == types.Int || cb.Kind() == types.Uint) {
+						widened = true
+					}
+				}
+			}
+			R.Check(!(narrow && widened), "H5", at, pos, "shift at "+b.Name(),
+				fmt.Sprintf("%s shifts at %s and widens the result afterwards (%s): for recorded values of 2^31 and above the shift wraps, so quantiles, Min/Max and Merge see garbage", f.Name, b.Name(), nodeStr(par)))
+			return true
+		})
+	}
+	if shifts == 0 {
+		R.Fail("H5", "hdrhist/shifts", "-", "no shift expression found in hdrhist: the bucket arithmetic moved")
+	}
+	// H6
+	f := p.FuncNamed("dt/hdrhist.(*Histogram).Export")
+	at := "hdrhist.(*Histogram).Export/counts-copied"
+	if f == nil {
+		R.Fail("H6", at, "-", "Export not found")
+		return
+	}
+	info := f.Info()
+	var val ast.Expr
+	ast.Inspect(f.Body, func(x ast.Node) bool {
+		switch t := x.(type) {
+		case *ast.KeyValueExpr:
+			if k, ok := t.Key.(*ast.Ident); ok && k.Name == "Counts" {
+				val = t.Value
+			}
+		case *ast.AssignStmt:
+			for i, l := range t.Lhs {
+				if se, ok := ast.Unparen(l).(*ast.SelectorExpr); ok && se.Sel.Name == "Counts" && i < len(t.Rhs) {
+					val = t.Rhs[i]
+				}
+			}
+		}
+		return true
+	})
+	if val == nil {
+		R.Undecided("H6", at, p.Position(f.Pos()), "Export does not set Snapshot.Counts in a recognisable way")
+		return
+	}
+	var root func(e ast.Expr, depth int) ast.Expr
+	root = func(e ast.Expr, depth int) ast.Expr {
+		e = ast.Unparen(e)
+		switch t := e.(type) {
+		case *ast.SliceExpr:
+			return root(t.X, depth)
+		case *ast.CallExpr:
+			if isBuiltinCall(info, t, "append") && len(t.Args) > 0 {
+				return root(t.Args[0], depth)
+			}
+			if isBuiltinCall(info, t, "make") {
+				return nil
+			}
+			if tv, ok := info.Types[t.Fun]; ok && tv.IsType() {
+				return root(t.Args[0], depth) // conversion
+			}
+			if cn := callName(info, t); cn == "slices.Clone" || cn == "bytes.Clone" {
+				return nil
+			}
+			return e
+		case *ast.Ident:
+			if isNilIdent(info, t) {
+				return nil
+			}
+			if v, ok := info.Uses[t].(*types.Var); ok && depth < 3 {
+				if rhs := singleDef(f, v); rhs != nil {
+					return root(rhs, depth+1)
+				}
+			}
+			return e
+		case *ast.CompositeLit:
+			return nil
+		}
+		return e
+	}
+	r := root(val, 0)
+	alias := false
+	if r != nil {
+		if se, ok := ast.Unparen(r).(*ast.SelectorExpr); ok && se.Sel.Name == "counts" {
+			alias = true
+		} else {
+			alias = true // anything we cannot show to be fresh
+		}
+	}
+	R.Check(!alias, "H6", at, p.Position(val.Pos()), "Counts is built on a fresh backing array: "+exprStr(val),
+		fmt.Sprintf("Export stores %s in Snapshot.Counts, whose backing array is %s: the snapshot (and a histogram imported from it) shares the counts of the live histogram while keeping its own total — further records or a Reset of the original desynchronise them and trip the iteration invariant", exprStr(val), func() string {
+			if r == nil {
+				return "fresh"
+			}
+			return exprStr(r)
+		}()))
+}
